@@ -5,6 +5,7 @@ import (
 	"encoding/hex"
 	"fmt"
 	"math/big"
+	"runtime"
 	"runtime/metrics"
 	"sort"
 	"strings"
@@ -84,7 +85,17 @@ var callParser = parsers.NewCallArgsParser()
 
 var allocSample = []metrics.Sample{{Name: "/gc/heap/allocs:bytes"}}
 
+// ExactAlloc switches the per-call allocation measurement to runtime.ReadMemStats (exact, but it
+// stops the world): used to confirm a suspicion raised by the cheap runtime/metrics reading, whose
+// per-size-class counters are flushed lazily and can attribute earlier allocations to a later call.
+var ExactAlloc bool
+
 func heapAllocs() uint64 {
+	if ExactAlloc {
+		var ms runtime.MemStats
+		runtime.ReadMemStats(&ms)
+		return ms.TotalAlloc
+	}
 	metrics.Read(allocSample)
 	return allocSample[0].Value.Uint64()
 }
